@@ -741,6 +741,11 @@ def catalogue(tier):
         ('g15-thin',     'G15',   ('bbox', [(475, 100, 700, 300)]), [1, 2], (1, 1), 0, 'EPSG:3857'),
         # the single tile row of level 0 (600 // 140 = 4 pixels) ends at y = 560: rows of level 3 above it have no ancestor
         ('gcust-top',    'Gcust', ('bbox', [(100, 450, 400, 595)]), [0, 3], (1, 1), 0, 'EPSG:3857'),
+        # a fat part that contains whole tiles of a coarse level next to a thin arm: a contained sub-tile and a partially
+        # covered sibling under one parent, in both walk orders, with levels below the sibling
+        ('g2-fat-arm-e', 'G2',    ('poly', [(0, 0, 330, 330), (330, 0, 630, 50)]), [0, 1, 2], (1, 1), 0, 'EPSG:3857'),
+        ('g2-fat-arm-w', 'G2',    ('poly', [(310, 310, 640, 640), (10, 590, 310, 640)]), [0, 1, 2], (1, 1), 0, 'EPSG:3857'),
+        ('g2-fat-arm-n', 'G2',    ('poly', [(0, 0, 330, 330), (0, 330, 50, 630)]), [1, 2], (1, 1), 0, 'EPSG:3857'),
     ]
     if tier == 'thorough':
         c += [
